@@ -100,6 +100,7 @@ def assertion_rule(run, ctx):
         run.violation(fam, label, "anchor-missing/vm-match", H.where(a[0]), "anchor-missing: match on Assertion in vm::run")
         return
     vm_col = {}
+    table_form = 0
     for arm in inner[0]["arms"]:
         if H.is_wild_arm(arm):
             run.violation(fam, label, "vm-wildcard", H.where(arm), "wildcard arm in the VM's match on Assertion")
@@ -113,8 +114,22 @@ def assertion_rule(run, ctx):
         body, arm = vm_col[var]
         n += 1
         want = "look_matcher.%s(s,ix)" % meth
+        # the same decision as a table entry: the regex-automata `Look` that LookMatcher::matches evaluates
+        look = "Look::" + "".join(w_.upper() if w_ in ("lf", "crlf") else w_.capitalize() for w_ in meth[3:].split("_"))
+        if body == look or body.endswith("::" + look):
+            table_form += 1
+            continue
         if not (body == want or body == want + ".unwrap()"):
-            run.violation(fam, label, "vm/" + var, H.where(arm), "%s must be decided by LookMatcher::%s at (s, ix), found %s" % (var, meth, body))
+            run.violation(fam, label, "vm/" + var, H.where(arm), "%s must be decided by LookMatcher::%s at (s, ix) (or its table entry %s), found %s" % (var, meth, look, body))
+    if table_form:
+        # the table's value must be what the matcher is asked, at (s, ix)
+        calls = [H.canon(nd) for nd in H.walk(a[0]["body"]) if nd.get("k") == "MethodCall" and nd["name"] == "matches" and H.canon(nd["recv"]) == "look_matcher"]
+        okc = len(calls) == 1 and re.match(r"^look_matcher\.matches\((.*),s,ix\)$", calls[0])
+        src = okc.group(1) if okc else None
+        mt = H.canon(inner[0])
+        lets_ = {nd["pat"]["name"]: H.canon(nd["init"]) for nd in H.walk(a[0]["body"]) if nd.get("k") == "Let" and nd["pat"].get("k") == "Binding" and nd.get("init") is not None}
+        if not okc or not (src == mt or lets_.get(src) == mt):
+            run.violation(fam, label, "vm-table-use", H.where(a[0]), "the Look chosen for the assertion must be what look_matcher.matches is asked at (s, ix), found %s" % calls)
     # the VM fails the thread iff the assertion is false
     c = H.canon(a[0]["body"])
     # path-based: on every path the look-matcher's answer decides: false -> fail, true -> go on
